@@ -732,6 +732,15 @@ fn run_whiten<F: Fl>(
     let m = &name[7..];
     let mk = |test: Option<&Mat>, at: Value| case_json(case, name, test, at);
     cnt.evals += 1;
+    if n > 0 && !dom.full_rank {
+        // Nothing is stated for rank-deficient training data (n <= p included), so the subject is not
+        // even called: Whitener::zca().fit on a single row of >= 3 columns feeds a NaN covariance
+        // (division by n - 1 = 0) to linfa-linalg's SVD, whose QR loop has no iteration cap and never
+        // returns (observed while building this check; outside the stated domain, reported as a note).
+        cnt.ood += 1;
+        cnt.bump("whitening_rank_deficient_training_skipped", 1);
+        return;
+    }
     let ds = DatasetBase::from(a.view());
     let w = whitener(name);
     let fitted: Result<Result<FittedWhitener<F>, _>, String> = guarded(|| w.fit(&ds));
@@ -752,19 +761,12 @@ fn run_whiten<F: Fl>(
         f64::INFINITY
     };
     let verdict = dom.full_rank && tol <= 0.05;
-    if !dom.full_rank {
-        cnt.ood += 1;
-    } else if !verdict {
+    if !verdict {
         cnt.indet += 1;
         cnt.bump("whitening_ill_conditioned_indeterminate", 1);
     }
     let fw = match fitted {
-        Ok(Ok(f)) => {
-            if !dom.full_rank {
-                cnt.bump("whitening_rank_deficient_fit_ok", 1);
-            }
-            f
-        }
+        Ok(Ok(f)) => f,
         Ok(Err(e)) => {
             if verdict {
                 v.push(Violation::new(
@@ -772,8 +774,8 @@ fn run_whiten<F: Fl>(
                     format!("{} ({}): fit on a full-rank {}x{} matrix (covariance condition number {:e}) returned Err({})", name, F::NAME, n, p, dom.cond, e),
                     mk(None, json!({"op": "fit"})),
                 ));
-            } else if !dom.full_rank {
-                cnt.bump("whitening_rank_deficient_fit_err", 1);
+            } else {
+                cnt.bump("whitening_ill_conditioned_fit_err", 1);
             }
             return;
         }
@@ -784,8 +786,8 @@ fn run_whiten<F: Fl>(
                     format!("{} ({}): fit on a full-rank {}x{} matrix panicked: {}", name, F::NAME, n, p, pm),
                     mk(None, json!({"op": "fit"})),
                 ));
-            } else if !dom.full_rank {
-                cnt.bump("whitening_rank_deficient_fit_panic", 1);
+            } else {
+                cnt.bump("whitening_ill_conditioned_fit_panic", 1);
             }
             return;
         }
@@ -802,7 +804,7 @@ fn run_whiten<F: Fl>(
         return;
     }
     if !finite {
-        return; // rank-deficient training data: nothing stated
+        return; // ill-conditioned beyond the verdict threshold: nothing demanded
     }
     let tf = |x: Array2<F>| -> Array2<F> { fw.transform(x) };
     let z = match guarded(|| tf(a.clone())) {
